@@ -10,9 +10,7 @@ package main
 // sequences at a smaller length cross-checks states and violation classes.
 
 import (
-	"bytes"
 	"fmt"
-	"io/ioutil"
 	"os"
 	"path/filepath"
 	"runtime"
@@ -569,6 +567,58 @@ func product(l *lts, roots []int, maxLen int, reqOK []bool) *productResult {
 	return pr
 }
 
+// countViolations counts, per class, the pairs (step sequence of length ≤ maxLen
+// over the extracted transitions, violation raised by its last step) — by
+// dynamic programming over the product states, without deduplicating paths.
+// The un-deduplicated enumeration must arrive at exactly these numbers.
+func countViolations(l *lts, root int, maxLen int, reqOK []bool) map[string]int {
+	slotIdx := map[int]int{}
+	for i, s := range slotList {
+		slotIdx[s] = i
+	}
+	type ps struct {
+		sid int
+		m   mon
+	}
+	total := map[string]int{}
+	for _, slot := range slotList {
+		cur := map[ps]int{{sid: root}: 1}
+		for d := 0; d < maxLen; d++ {
+			next := map[ps]int{}
+			for p, cnt := range cur {
+				st := l.states[p.sid]
+				for ti := range st.trans {
+					tr := &st.trans[ti]
+					if reqOK != nil && !reqOK[tr.st.Req] {
+						continue
+					}
+					m2, sigs := monStep(p.m, slot, slotIdx, tr.st.Req, &tr.o)
+					for _, sg := range sigs {
+						total[sigString(sg)] += cnt
+					}
+					if tr.succ >= 0 {
+						next[ps{sid: tr.succ, m: m2}] += cnt
+					}
+				}
+			}
+			cur = next
+		}
+	}
+	return total
+}
+
+// pubSig is the reported signature of a violation class: site, kind, fault (and
+// "after" for failed restarts); the consequence is evidence, not identity.
+func pubSig(sig map[string]string) map[string]string {
+	o := map[string]string{}
+	for k, v := range sig {
+		if k != "consequence" {
+			o[k] = v
+		}
+	}
+	return o
+}
+
 // pathOf rebuilds the step sequence of a product counterexample.
 func (pr *productResult) pathOf(l *lts, v pviol) kase {
 	var rev []step
@@ -599,6 +649,7 @@ type fullResult struct {
 	paths       int
 	vacuous     int
 	sigClasses  map[string]int
+	exact       map[string]int // (sequence whose last fault was reached, violation of its last step) pairs per class
 }
 
 // fullEnum runs every sequence of length ≤ maxDepth over 24 requests × 12 fault
@@ -607,7 +658,7 @@ type fullResult struct {
 // the variant without the fault) but not extended: its extensions are the
 // extensions of that other variant.
 func (c *ctx) fullEnum(initFault string, maxDepth int, reqList []int) *fullResult {
-	fr := &fullResult{sigClasses: map[string]int{}}
+	fr := &fullResult{sigClasses: map[string]int{}, exact: map[string]int{}}
 	cum := map[string]bool{}
 	root := c.withWorker(func(w *worker) pathResult { return c.runPath(w, kase{InitFault: initFault}) })
 	cum[root.key] = true
@@ -643,6 +694,9 @@ func (c *ctx) fullEnum(initFault string, maxDepth int, reqList []int) *fullResul
 			}
 			for _, v := range r.viols {
 				fr.sigClasses[sigString(v.Sig)]++
+				if !r.vacuous {
+					fr.exact[sigString(v.Sig)]++
+				}
 			}
 			if r.stopped {
 				continue
@@ -747,7 +801,7 @@ func main() {
 		}
 		fmt.Println("   released:", pr.ledger)
 		for _, v := range pr.allV {
-			run.Report(v.Sig, k, v.Detail+" — case: "+k.String())
+			run.Report(pubSig(v.Sig), k, v.Detail+" — case: "+k.String())
 		}
 		os.RemoveAll(base)
 		run.Finish(nil, nil)
@@ -760,11 +814,9 @@ func main() {
 		w1, w2 := <-c.pool, <-c.pool
 		s := &sim{c: c, w: w1}
 		s.reset("")
-		before, _ := ioutil.ReadFile(w1.path)
 		o := s.exec(step{Req: 2, Fault: "none"})
-		after, _ := ioutil.ReadFile(w1.path)
-		if len(o.points) != 3 || bytes.Equal(before, after) {
-			core.Fatal("a first signature hit write points %v of WriteFileAtomic (want bak,new,rename), file changed=%v: the hooks no longer cover the signer's durable write", o.points, !bytes.Equal(before, after))
+		if strings.Join(o.points, ",") != "bak,new,rename" {
+			core.Fatal("a first signature passed the write points %v of WriteFileAtomic on the signer file (want bak,new,rename): the hooks no longer cover the signer's durable write", o.points)
 		}
 		pa = c.runPath(w1, probe)
 		pb := c.runPath(w2, probe)
@@ -827,7 +879,7 @@ func main() {
 		pr := confirm(k, sig)
 		for _, v := range pr.allV {
 			if sigString(v.Sig) == sigString(sig) {
-				run.Report(v.Sig, k, v.Detail+" — case: "+k.String()+" — released so far: "+pr.ledger)
+				run.Report(pubSig(v.Sig), k, v.Detail+" — case: "+k.String()+" — released in this case: "+pr.ledger)
 				break
 			}
 		}
@@ -871,9 +923,49 @@ func main() {
 	tProd := time.Now()
 	pr := product(l, l.roots, prodLen, nil)
 	progress("product (length %d, reached depth %d, closed %v): %d states, %d transitions in %v, classes %v", prodLen, pr.maxDepth, pr.closed, pr.states, pr.transitions, time.Since(tProd), pr.classCount)
+	// One defect = one reported class.  The search distinguishes, for evidence, what a release without a
+	// durable record later led to (nothing yet / conflicting signatures / regression) and which faults the
+	// history of a logic violation contained; the reported signature keeps site, kind and fault only, the
+	// case shown first is the one with the gravest consequence, and a logic violation (conflicting
+	// signatures or regression between durably recorded releases) is reported under the weakest fault
+	// class in which it occurs (none < process-death < write-error).
+	conseqRank := map[string]int{"conflicting-signatures": 0, "hrs-regression": 1, "none": 2}
+	faultRank := map[string]int{"none": 0, "process-death": 1, "write-error": 2}
+	type inst struct {
+		v    pviol
+		rank int
+	}
+	groups := map[string][]inst{}
+	weakest := map[string]int{}
 	for _, k := range sortedKeys(pr.classCount) {
 		for _, v := range pr.first[k] {
-			reportConfirmed(pr.pathOf(l, v), v.sig)
+			if v.sig["kind"] != "released-without-durable-record" {
+				if w, ok := weakest[v.sig["kind"]]; !ok || faultRank[v.sig["fault"]] < w {
+					weakest[v.sig["kind"]] = faultRank[v.sig["fault"]]
+				}
+			}
+		}
+	}
+	for _, k := range sortedKeys(pr.classCount) {
+		for _, v := range pr.first[k] {
+			confirm(pr.pathOf(l, v), v.sig)
+			if v.sig["kind"] != "released-without-durable-record" && faultRank[v.sig["fault"]] != weakest[v.sig["kind"]] {
+				continue
+			}
+			g := sigString(pubSig(v.sig))
+			groups[g] = append(groups[g], inst{v, conseqRank[v.sig["consequence"]]})
+		}
+	}
+	var gkeys []string
+	for g := range groups {
+		gkeys = append(gkeys, g)
+	}
+	sort.Strings(gkeys)
+	for _, g := range gkeys {
+		is := groups[g]
+		sort.SliceStable(is, func(i, j int) bool { return is[i].rank < is[j].rank })
+		for _, in := range is {
+			reportConfirmed(pr.pathOf(l, in.v), in.v.sig)
 		}
 	}
 
@@ -950,6 +1042,12 @@ func main() {
 			if strings.Join(ka, "\n") != strings.Join(kb, "\n") {
 				core.Fatal("deduplicated search and full enumeration (%s) find different violation classes:\n dedup: %v\n full:  %v", cfg.name, ka, kb)
 			}
+			exact := countViolations(l, rootID, cfg.length, reqOK)
+			for _, k := range ka {
+				if exact[k] != fr.exact[k] {
+					core.Fatal("deduplicated search and full enumeration (%s) count different numbers of violating sequences for %s: %d vs %d", cfg.name, k, exact[k], fr.exact[k])
+				}
+			}
 			fullPaths += fr.paths
 			cross[fmt.Sprintf("start_state_%d: %s", ri, cfg.name)] = map[string]interface{}{
 				"full_sequences_executed":     fr.paths,
@@ -957,7 +1055,8 @@ func main() {
 				"distinct_states_full":        len(fr.keysAtDepth[cfg.length]),
 				"distinct_states_dedup":       len(reach),
 				"violation_classes_both":      ka,
-				"violation_cases_full":        fr.sigClasses,
+				"violating_sequences_full":    fr.exact,
+				"violating_sequences_dedup":   exact,
 				"states_and_violations_agree": true,
 			}
 			atomic.AddInt64(&c.execs, c2.execs)
